@@ -104,10 +104,31 @@ def build_sylt_bin():
         return rc == 0, out
 
 
+COQPROJECT_HEADER = """-Q . Sylt
+-arg -w -arg -notation-overridden,-deprecated-hint-without-locality,-deprecated-instance-without-locality
+"""
+
+
+def coq_files():
+    out = []
+    for root, dirs, files in os.walk(COQ):
+        rel = os.path.relpath(root, COQ)
+        if rel.split(os.sep)[0] in ("Extract", "scratch"):
+            continue
+        for f in files:
+            if f.endswith(".v") and not f.startswith("."):
+                out.append(os.path.normpath(os.path.join(rel, f)))
+    return sorted(out)
+
+
 def coq_makefile():
+    """_CoqProject is generated: every .v under coq/ except Extract/ and scratch/."""
     mk = os.path.join(COQ, "Makefile")
     cp = os.path.join(COQ, "_CoqProject")
-    if not os.path.exists(mk) or os.path.getmtime(mk) < os.path.getmtime(cp):
+    want = COQPROJECT_HEADER + "\n".join(coq_files()) + "\n"
+    have = open(cp).read() if os.path.exists(cp) else ""
+    if want != have or not os.path.exists(mk):
+        open(cp, "w").write(want)
         run(["coq_makefile", "-f", "_CoqProject", "-o", "Makefile"], cwd=COQ, check=True)
 
 
